@@ -192,10 +192,18 @@ pub fn rng_fault_menu(order: &BigUint, p_field: Option<&BigUint>) -> Vec<(&'stat
 /// In-range edge candidates (must be usable): 1, order-1, order-2, low-limb-zero.
 pub fn rng_edge_menu(order: &BigUint) -> Vec<(&'static str, [u8; 32])> {
     let lowzero = ((order >> 65u32) << 64u32) | BigUint::zero();
+    // a zero 64-bit limb in the middle, non-zero limbs around it (windowed / limb-wise loops)
+    let limb = |hi: u64, l2: u64, l1: u64, l0: u64| -> BigUint {
+        (BigUint::from(hi) << 192u32) | (BigUint::from(l2) << 128u32) | (BigUint::from(l1) << 64u32) | BigUint::from(l0)
+    };
+    let top = (order >> 192u32).to_u64_digits().first().copied().unwrap_or(1) / 2;
     vec![
         ("1", be32(&BigUint::one())),
         ("order-1", be32(&(order - 1u32))),
         ("order-2", be32(&(order - 2u32))),
         ("low-limb-zero", be32(&lowzero)),
+        ("limb1-zero", be32(&limb(top, 0x9e3779b97f4a7c15, 0, 0xd1342543de82ef95))),
+        ("limb2-zero", be32(&limb(top, 0, 0x9e3779b97f4a7c15, 0xd1342543de82ef95))),
+        ("limbs1-2-zero", be32(&limb(top | 1, 0, 0, 0xd1342543de82ef95))),
     ]
 }
